@@ -142,6 +142,10 @@ func (n *Native) Run(bin, harness, replay string, repeat int) (NativeOutcome, er
 			}
 		}
 	}
+	if strings.Contains(res.Raw, "WARNING: DATA RACE") {
+		res.Outcome = "VERIF-RACE: the race detector reported a data race between two goroutines driving distinct worlds"
+		return res, nil
+	}
 	if res.Outcome == "" && strings.Contains(res.Raw, "checkptr:") {
 		res.Outcome = "VERIF-CHECKPTR: unsafe pointer arithmetic left its allocation"
 		return res, nil
